@@ -382,9 +382,10 @@ package j5schema
 // The first value must end in UNSPECIFIED; what precedes the suffix is the prefix, which is trimmed
 // from every name. Every kept option is non-nil and carries the number of the descriptor value at the
 // same position (after the dropped default value, if the enum is marked no-default).
+//@ spec func enumNoDefault(d protoreflect.EnumDescriptor) bool = extof(ext_j5pb.E_Enum, descOpts(d)) != nil && extof(ext_j5pb.E_Enum, descOpts(d)).NoDefault
 //@ spec func trimmed(short string, full string, prefix string) bool = hasPrefix(full, prefix) ? prefix + short == full : short == full
 //@ func (*Package).buildEnum
-//@   ensures count: result1 == nil ==> len(result0.Options) == evLen(evs(enumDescriptor)) || len(result0.Options) == evLen(evs(enumDescriptor)) - 1
+//@   ensures count: result1 == nil ==> len(result0.Options) == evLen(evs(enumDescriptor)) - (enumNoDefault(enumDescriptor) ? 1 : 0)
 //@   ensures options: result1 == nil ==> forall i int {result0.Options[i]} :: 0 <= i && i < len(result0.Options) ==> result0.Options[i] != nil
 //@   |   && result0.Options[i].number == evNumber(evAt(evs(enumDescriptor), i + evLen(evs(enumDescriptor)) - len(result0.Options)))
 //@   ensures prefix: result1 == nil ==> result0.NamePrefix + "UNSPECIFIED" == descName(evAt(evs(enumDescriptor), 0))
